@@ -16,6 +16,7 @@ import (
 	kit "github.com/mimiro-io/datahub/internal/verifkit"
 
 	"github.com/mimiro-io/datahub/internal/server"
+	"github.com/mimiro-io/datahub/internal/verifhook"
 )
 
 // Op is one step of a generated history. Histories are data: they are drawn
@@ -280,6 +281,28 @@ func execOp(h *WHub, op Op) error {
 		if op.N == 1 {
 			_ = h.GC.GC()
 		}
+	case "gcdel":
+		// a dataset is deleted WHILE the garbage collector runs (the delete request arrives between two
+		// of the collector's scans, op.ID names the point)
+		var derr error
+		done := false
+		verifhook.SetCallback(op.ID, func(int) {
+			if !done {
+				done = true
+				derr = h.Dsm.DeleteDataset(op.Name)
+			}
+		})
+		err := h.GC.Cleandeleted()
+		verifhook.SetCallback(op.ID, nil)
+		if err != nil {
+			return fmt.Errorf("Cleandeleted: %w", err)
+		}
+		if !done {
+			return fmt.Errorf("VERIF-INFRA the collector never reached %s", op.ID)
+		}
+		if derr != nil {
+			return fmt.Errorf("DeleteDataset(%s) during garbage collection: %w", op.Name, derr)
+		}
 	case "restart":
 		h.Restart()
 	}
@@ -512,6 +535,12 @@ func (g *gm) applyDelete(op Op) {
 			g.fail("%v", err)
 		}
 	}
+	g.modelDelete(op.Name)
+}
+
+// modelDelete: what deleting a dataset means for the model and the bookkeeping.
+func (g *gm) modelDelete(name string) {
+	op := Op{Name: name}
 	md := g.m.DS[op.Name]
 	for _, other := range g.m.Names() {
 		if other == op.Name {
@@ -570,6 +599,21 @@ func (g *gm) applyGC(op Op) {
 		g.cls["gc-after-delete"] = true
 	}
 	g.checkNoKeysOfDeadDatasets()
+}
+
+// applyGCDel: garbage collection with a dataset deleted in the middle of it.
+func (g *gm) applyGCDel(op Op) {
+	g.record(op)
+	if g.h != nil {
+		if d := g.h.Dsm.GetDataset(op.Name); d != nil {
+			g.deadIDs = append(g.deadIDs, d.InternalID)
+		}
+		if err := execOp(g.h, op); err != nil {
+			g.fail("%v", err)
+		}
+	}
+	g.modelDelete(op.Name)
+	g.cls["dataset-deleted-during-gc"] = true
 }
 
 // applyPubNS sets the public namespaces of a dataset (op.Scope) through its meta-entity.
@@ -635,6 +679,8 @@ func (g *gm) applyOp(op Op) {
 		g.applyRename(op)
 	case "gc":
 		g.applyGC(op)
+	case "gcdel":
+		g.applyGCDel(op)
 	case "restart":
 		g.applyRestart(op)
 	case "pubns":
